@@ -255,6 +255,7 @@ def first_round(case):
     tr = capture.Trace(case)
     capture.CUR = tr
     try:
+        row = None
         if iso == "WOR":
             c, t, l = ScenarioRunner().set_depending_on_option(dict(opts))
         else:
@@ -269,7 +270,51 @@ def first_round(case):
         return {"viol": [], "obs": {"first_round": True, "iso": iso, "failed": repr(e)[:120], "audited": 0}}
     finally:
         capture.CUR = None
-    return audit_outputs(case["id"], iso, opts, tin, out, tr)
+    r = audit_outputs(case["id"], iso, opts, tin, out, tr)
+    # CROP_ / GRASSES_PRODUCTION_MULTIPLIER scale a baseline: the series must be exactly that multiple of the series of the same
+    # options without the multiplier, in every month of the horizon (the year ratios the audit reads were already multiplied)
+    mult = {k: opts[k] for k in ("CROP_PRODUCTION_MULTIPLIER", "GRASSES_PRODUCTION_MULTIPLIER") if k in opts}
+    if mult and "failed" not in r["obs"]:
+        try:
+            o0 = {k: v for k, v in opts.items() if k not in mult}
+            tr0 = capture.Trace(case)
+            capture.CUR = tr0
+            try:
+                if iso == "WOR":
+                    c0, t0, l0 = ScenarioRunner().set_depending_on_option(dict(o0))
+                else:
+                    c0, t0, l0 = ScenarioRunner().set_depending_on_option(dict(o0), country_data=row)
+                out0 = Parameters().compute_parameters_first_round(c0, t0, l0)
+            finally:
+                capture.CUR = None
+            inp = out[0]["inputs"]
+            plain = not (inp["OG_USE_BETTER_ROTATION"] or inp["ADD_GREENHOUSES"])
+            pairs = []
+            if "CROP_PRODUCTION_MULTIPLIER" in mult and plain:
+                pairs.append(("outdoor_crops", np.asarray(out[1]["outdoor_crops"].production.kcals, float), np.asarray(out0[1]["outdoor_crops"].production.kcals, float), mult["CROP_PRODUCTION_MULTIPLIER"]))
+            if "GRASSES_PRODUCTION_MULTIPLIER" in mult and tr.herds and tr0.herds and tr.herds[0][0]["grass"] is not None and tr0.herds[0][0]["grass"] is not None:
+                pairs.append(("grass", np.asarray(tr.herds[0][0]["grass"], float), np.asarray(tr0.herds[0][0]["grass"], float), mult["GRASSES_PRODUCTION_MULTIPLIER"]))
+            for name, got, base, m in pairs:
+                if name == "outdoor_crops":
+                    # model year 1 (May-December) goes through the harvest-before-May correction, which is not linear in the year's
+                    # ratio; from month 8 on the series is the calendar month's share times the year's ratio
+                    got, base = got[8:], base[8:]
+                    if not got.size:
+                        continue
+                want = base * m
+                sc = max(1e-300, float(np.abs(want).max()), float(np.abs(got).max()))
+                d = np.abs(got - want) / sc
+                r["obs"]["audited"] += 1
+                r["obs"]["multiplier_pairs"] = r["obs"].get("multiplier_pairs", 0) + 1
+                if got.shape != want.shape or d.max() > REL:
+                    k = int(d.argmax()) if got.shape == want.shape else 0
+                    r["viol"].append({"mech": "series_does_not_scale_with_production_multiplier", "msg": "%s %s: %s month %d of %d is %.10g, %.6g x the series without the multiplier is %.10g" % (
+                        iso, case["id"], name, k + (8 if name == "outdoor_crops" else 0), N, got[k], m, want[k]), "data": {"iso": iso, "series": name, "month": k + (8 if name == "outdoor_crops" else 0), "N": N, "multiplier": m}})
+        except BaseException as e:  # noqa: BLE001
+            if isinstance(e, KeyboardInterrupt):
+                raise
+            r["obs"]["multiplier_rerun_failed"] = repr(e)[:100]
+    return r
 
 
 def documented_delays(opts, iso, N):
@@ -653,6 +698,7 @@ def summarize(cases, records, tier):
                 "direct cases: generated constants per food_system class incl. a scaling re-run (non-trivial = non-zero series); evaluations = series compared",
         "samples": [{k: r["obs"].get(k) for k in ("iso", "N", "scenario", "audited", "maxres")} for r in fr_ok[:: max(1, len(fr_ok) // 5)]][:6] + [{"direct": r["obs"]["direct"], "examples": r["obs"]["examples"]} for r in dr[:3]],
         "multi_country_calls": sum(1 for r in fr_ok if r["obs"].get("batch")), "countries_audited_inside_multi_country_calls": int(sum(r["obs"].get("countries_in_call", 0) for r in fr_ok)),
+        "series_compared_with_and_without_production_multiplier": int(sum(r["obs"].get("multiplier_pairs", 0) for r in fr_ok)),
         "first_round_runs": len(fr_ok), "first_round_failed": len(fr) - len(fr_ok), "countries": len({r["obs"]["iso"] for r in fr_ok}),
         "horizons": sorted({r["obs"]["N"] for r in fr_ok}),
         "direct_examples_by_class": dict(per), "direct_nontrivial_by_class": dict(nt),
